@@ -64,25 +64,39 @@ class _TimerTime(object):
 
 
 class CRLock(S.CLock):
+    """threading.RLock replacement; the owner is the thread object (two handshake workers share one name)."""
+
     def __init__(self):
         S.CLock.__init__(self)
         self.depth = 0
+        self.owner_thread = None
+
+    def _me(self):
+        s = S.cur()
+        t = s.me() if s is not None else None
+        return t if t is not None else "unmanaged"
 
     def acquire(self, blocking=True, timeout=-1):
-        s = S.cur()
-        me = s.me().name if s is not None and s.me() is not None else "unmanaged"
-        if self._held and self.owner == me:
+        me = self._me()
+        if self._held and self.owner_thread is me:
             self.depth += 1
             return True
         r = S.CLock.acquire(self, blocking, timeout)
         if r:
             self.depth = 1
+            self.owner_thread = me
         return r
 
     def release(self):
-        self.depth -= 1
-        if self.depth == 0:
-            S.CLock.release(self)
+        if not self._held or self.owner_thread is not self._me():
+            raise RuntimeError("cannot release un-acquired lock")
+        if self.depth > 1:
+            self.depth -= 1
+            return
+        # CLock.release has its scheduling point before the lock is given up: stay the owner until then
+        S.CLock.release(self)
+        self.depth = 0
+        self.owner_thread = None
 
     __enter__ = acquire
 
@@ -306,6 +320,8 @@ class World(object):
                 lay.lock.name = type(lay).__name__
         if isinstance(self.noise._flush_lock, S.CLock):
             self.noise._flush_lock.name = "flush"
+        if isinstance(getattr(self.noise, "_session_lock", None), S.CLock):
+            self.noise._session_lock.name = "session"
         if isinstance(self.noise._incoming_segments_queue, S.CQueue):
             self.noise._incoming_segments_queue.name = "segq"
         st = self.noise._stream
